@@ -156,6 +156,7 @@ pub(crate) const K_COMMIT_HEADER: u8 = 29; // commit_header (off = l1 offset, le
 pub(crate) const K_FLUSH_ENTRIES: u8 = 30; // flush_cache_entries(evicted) (len = number of entries)
 pub(crate) const K_GET_L1: u8 = 31; // get_l1_entry(split)
 pub(crate) const K_GET_RB_FAIL: u8 = 32; // get_refblock failed (off = host cluster)
+pub(crate) const K_SHRINK: u8 = 33; // cache.shrink() (flags = which cache)
 pub(crate) const K_TRYALLOC: u8 = 14; // try_alloc_from_rb_slice (off,len = granted run; len 0 = None)
 
 const NOREC: Rec = Rec { kind: K_NONE, entry: 0, off: 0, len: 0, buf_start: 0, flags: 0 };
@@ -255,6 +256,23 @@ impl KProbe {
         } else {
             None
         }
+    }
+}
+/// stand-in for an AsyncLruCache in flush_cache: answers get_dirty_entries(start, end) with the
+/// number of dirty entries the environment decided lie in that key range, and records the range
+pub(crate) struct KDirtySet {
+    pub n: usize,
+    pub asked: Cell<(usize, usize)>,
+}
+impl KDirtySet {
+    pub fn get_dirty_entries(&self, start: usize, end: usize) -> KKill {
+        self.asked.set((start, end));
+        KKill { n: self.n }
+    }
+}
+impl KKill {
+    pub fn is_empty(&self) -> bool {
+        self.n == 0
     }
 }
 pub(crate) struct KSl {
@@ -895,6 +913,17 @@ impl KEnv {
             self.passes_left.set(left - 1);
             Ok(false)
         }
+    }
+    // ---- cache shrink (segment SC)
+    pub fn k_sc_flush_meta(&self) -> Qcow2Result<()> {
+        self.rec(Rec { kind: K_FLUSH_MAPPING, ..NOREC });
+        if self.fail_write.get() {
+            return Err(crate::error::Qcow2Error::from_desc(String::new()));
+        }
+        Ok(())
+    }
+    pub fn k_sc_shrink(&self, which: KWhich) {
+        self.rec(Rec { kind: K_SHRINK, flags: which as u32, ..NOREC });
     }
     // ---- L1 header-entry extension
     pub fn k_commit_header<F: FnOnce(&mut crate::meta::Qcow2Header)>(&self, h: &mut RefMut<'_, crate::meta::Qcow2Header>, _rollback: F) -> Qcow2Result<()> {
